@@ -1098,7 +1098,11 @@ def summarize(tb, case, res, rng, with_model):
             # the EXPAND model (proofs/ConfigExpand.v): extracted for a markup type, evaluated inside Coq for the
             # stylesheet type (its pipeline model uses floats)
             try:
-                if ty == 'stylesheet':
+                if 'context' in case['user']:
+                    # a call with a scope `context` is outside the expand model's domain (ConfigExpand.v: is_absent
+                    # k_context): judged by the oracle and the Config model only; not spent on the in-Coq sample
+                    sm['xmodel'] = ('context', None)
+                elif ty == 'stylesheet':
                     sm['xmodel'] = ('coq', xu.coq_case(tb, res['eff'], case['abbr']))
                 else:
                     sm['xmodel'] = ('wire', xu.wire_expand(tb, res['eff'], case['abbr']))
@@ -1193,6 +1197,9 @@ def run_cases(ctx, tb, model, cases, label, pool, xmodel=None):
                 xm.append((case, sm))
             elif x[0] == 'coq':
                 XSTATE['coq'].append((case, sm, x[1]))
+            elif x[0] == 'context':
+                xc0 = expand_corr(ctx)
+                xc0['context_cases_oracle_only'] = xc0.get('context_cases_oracle_only', 0) + 1
             else:
                 expand_corr(ctx)['unencodable'] += 1
         xouts = []
